@@ -437,7 +437,7 @@ class H:
             conds = self.ctx.assume[since:]
             name = self._uniq(name)
             neg = z3.simplify(z3.Or(*[z3.Not(c) for c in conds])) if conds else z3.BoolVal(False)
-            o = Obligation(name, hyps, neg, None, "assert", None)
+            o = Obligation(name, hyps, neg, None, "defined", None)
             if z3.is_false(neg):
                 o.status = "unsat"
             self.obligations.append(o)
@@ -510,7 +510,7 @@ def _model_inputs(ctx, mv, ufnames):
     return vals, tables
 
 
-def _try_replay(u, ctx, h, target, hyps, neg, robust, timeout_ms, is_exception=None, log=None):
+def _try_replay(u, ctx, h, target, hyps, neg, robust, timeout_ms, is_exception=None, log=None, kind="assert"):
     """find a model whose concrete replay fails check `target` (or raises `is_exception`).
     returns (reproduced, inputs, detail)"""
     attempts = []
@@ -541,6 +541,8 @@ def _try_replay(u, ctx, h, target, hyps, neg, robust, timeout_ms, is_exception=N
             if isinstance(exc, ReplayMismatch):
                 last_detail = f"replay mismatch: {exc}"
                 continue
+            if kind == "defined" and isinstance(exc, (ZeroDivisionError, FloatingPointError, OverflowError)):
+                return True, (vals, tables), f"replay raised {type(exc).__name__}: {exc}"
             for (n, ok, detail) in hc.concrete_checks:
                 if n == target:
                     if not ok:
@@ -674,7 +676,7 @@ def run_unit(u, tier="quick", seed=0, query_timeout_ms=None, log=print):
             if st == "unknown":
                 out["inconclusive"].append(f"solver unknown/timeout on {o.name} after {o.time:.1f}s")
             elif st == "sat":
-                ok, vals, detail = _try_replay(u, ctx, h, o.name, o.hyps, o.neg, o.robust, qto)
+                ok, vals, detail = _try_replay(u, ctx, h, o.name, o.hyps, o.neg, o.robust, qto, kind=o.kind)
                 if ok:
                     out["violations"].append({"check": o.name, "inputs": vals[0], "uf_tables": vals[1],
                                               "detail": (o.meta + "; " if o.meta else "") + detail, "decisions": _dec(ctx)})
